@@ -1165,6 +1165,37 @@ impl Gen<'_> {
             out.append(&mut defs);
         }
 
+        if self.rng.chance(1, 3) {
+            // The calls sit in another function than the one that owns the variable, and their
+            // results are never looked at: the statements are dead stores whose right-hand sides
+            // write a variable of an enclosing scope.
+            let f = self.fresh_name("w");
+            let mut fb: Vec<Stmt> = Vec::new();
+            for _ in 0..self.rng.range(1, 3) {
+                let arg = Expr::Bool(self.rng.chance(3, 4));
+                let c = call(&w, vec![arg]);
+                let u = self.fresh_name("u");
+                fb.push(if returns { Stmt::Make { name: u, init: Some(c), decl: u32::MAX } } else { Stmt::Expr(c) });
+            }
+            fb.push(Stmt::Return(Some(num(0))));
+            let def_f = Stmt::FuncDef(Box::new(FuncDef { name: f.clone(), params: vec![], param_decls: vec![], body: Block { stmts: fb }, id: u32::MAX }));
+            if defs_first {
+                out.push(def_f.clone());
+            }
+            if self.rng.chance(1, 2) {
+                out.push(Stmt::Expr(call(&f, vec![])));
+            } else {
+                let u = self.fresh_name("u");
+                out.push(Stmt::Make { name: u, init: Some(call(&f, vec![])), decl: u32::MAX });
+            }
+            out.push(shout(var(&v)));
+            if !defs_first {
+                out.push(def_f);
+                out.append(&mut defs);
+            }
+            return;
+        }
+
         // the store, in a block of its own more often than not
         let stored = self.idiom_lit(is_num);
         let store = Stmt::Assign { name: v.clone(), value: stored, decl: u32::MAX };
@@ -1217,6 +1248,262 @@ impl Gen<'_> {
             2 => out.push(Stmt::If { cond: Expr::Bool(true), then_b: Block { stmts: vec![shout(var(&v))] }, else_b: None }),
             _ => {}
         }
+        if !defs_first {
+            out.append(&mut defs);
+        }
+    }
+
+    /// A computed string of exactly `len` bytes (`"<half>" add "<half>"`): an owned value in the
+    /// string pool, of a chosen size class.
+    fn computed_str(&mut self, len: usize) -> Expr {
+        let a = self.text_of_len(len / 2);
+        let b = self.text_of_len(len - a.len());
+        bin(BinOp::Add, plain(&a), plain(&b))
+    }
+
+    /// Left-to-right evaluation with a side effect in a later operand: a variable is read as the
+    /// receiver, left operand, first argument or first element, and a call further right in the
+    /// same expression then overwrites that variable (and allocates more values of the same size
+    /// class, so that storage given back is taken again at once). The expression must see the value
+    /// the variable had when it was read.
+    fn eval_order_idiom(&mut self, out: &mut Vec<Stmt>) {
+        self.budget -= 6;
+        let len = *self.rng.pick(&[6usize, 8, 9, 16, 17, 24, 32, 33, 64, 100, 128, 129, 256, 257, 300]);
+        let on_array = self.rng.chance(1, 4);
+        let v = self.fresh_name(if on_array { "ra" } else { "rs" });
+        let w = self.fresh_name("w");
+        let wn = self.fresh_name("w");
+        let show = self.fresh_name("w");
+        let init = if on_array { Expr::Arr(vec![self.computed_str(len), self.computed_str(len)]) } else { self.computed_str(len) };
+        out.push(Stmt::Make { name: v.clone(), init: Some(init), decl: u32::MAX });
+        let ty = if on_array { Ty::arr(Ty::Str) } else { Ty::Str };
+        self.declare(VarInfo { name: v.clone(), ty, frozen: false, fixed: false, lens: vec![] });
+        // the writers: w returns a string, wn a small number
+        let mut defs = Vec::new();
+        for (name, ret) in [(&w, plain(*self.rng.pick(&["t", "x", "-", "é", "zz"]))), (&wn, num(self.rng.range(1, 3)))] {
+            let mut body = Vec::new();
+            let overwrite = match (on_array, self.rng.weighted(&[3, 2, 2])) {
+                (false, _) => Stmt::Assign { name: v.clone(), value: self.computed_str(len), decl: u32::MAX },
+                (true, 0) => Stmt::Assign { name: v.clone(), value: Expr::Arr(vec![self.computed_str(len)]), decl: u32::MAX },
+                (true, 1) => Stmt::AssignIndex { target: Expr::Index(Box::new(var(&v)), Box::new(num(0))), value: self.computed_str(len) },
+                (true, _) => Stmt::Expr(method(var(&v), "reverse", vec![])),
+            };
+            body.push(overwrite);
+            for _ in 0..self.rng.range(0, 2) {
+                let t = self.fresh_name("s");
+                body.push(Stmt::Make { name: t, init: Some(self.computed_str(len)), decl: u32::MAX });
+            }
+            body.push(Stmt::Return(Some(ret)));
+            defs.push(Stmt::FuncDef(Box::new(FuncDef { name: name.clone(), params: vec![], param_decls: vec![], body: Block { stmts: body }, id: u32::MAX })));
+        }
+        let (pa, pb) = (self.fresh_name("p"), self.fresh_name("p"));
+        let show_body = if on_array {
+            vec![Stmt::Return(Some(bin(BinOp::Add, method(var(&pa), "join", vec![plain("|")]), var(&pb))))]
+        } else {
+            vec![Stmt::Return(Some(bin(BinOp::Add, var(&pa), var(&pb))))]
+        };
+        defs.push(Stmt::FuncDef(Box::new(FuncDef { name: show.clone(), params: vec![pa, pb], param_decls: vec![], body: Block { stmts: show_body }, id: u32::MAX })));
+        let defs_first = self.rng.chance(1, 2);
+        if defs_first {
+            out.append(&mut defs);
+        }
+        for _ in 0..self.rng.range(1, 3) {
+            let cw = call(&w, vec![]);
+            let cn = call(&wn, vec![]);
+            let e = if on_array {
+                match self.rng.weighted(&[3, 3, 2, 2]) {
+                    0 => method(var(&v), "join", vec![cw]),
+                    1 => call(&show, vec![var(&v), cw]),
+                    2 => Expr::Arr(vec![var(&v), cw]),
+                    _ => bin(BinOp::Add, Expr::Index(Box::new(var(&v)), Box::new(num(0))), cw),
+                }
+            } else {
+                match self.rng.weighted(&[3, 2, 2, 3, 3, 2, 2, 2, 1]) {
+                    0 => method(var(&v), "find", vec![cw]),
+                    1 => method(var(&v), "replace", vec![cw, plain("Z")]),
+                    2 => method(var(&v), "replace", vec![plain("x"), cw]),
+                    3 => bin(BinOp::Add, var(&v), cw),
+                    4 => call(&show, vec![var(&v), cw]),
+                    5 => Expr::Arr(vec![var(&v), cw]),
+                    6 => method(var(&v), "slice", vec![num(0), bin(BinOp::Add, cn, num(len as i64))]),
+                    7 => method(var(&v), "split", vec![cw]),
+                    _ => bin(BinOp::Lt, var(&v), cw),
+                }
+            };
+            out.push(shout(e));
+            out.push(shout(var(&v)));
+        }
+        if !defs_first {
+            out.append(&mut defs);
+        }
+    }
+
+    /// The classic probe for lexical against dynamic binding: a function reads, assigns and mutates
+    /// in place a variable of its defining scope while its (direct or indirect) caller holds a
+    /// different variable of the same name as a local, a parameter or a loop-body local. The
+    /// defining scope's variable must change, the caller's must not.
+    fn scope_probe_idiom(&mut self, out: &mut Vec<Stmt>) {
+        self.budget -= 8;
+        let x = self.fresh_name("sp");
+        let kind = self.rng.weighted(&[2, 2, 3, 4]); // num, str, array, array of arrays
+        let (ty, outer_init, caller_init): (Ty, Expr, Expr) = match kind {
+            0 => (Ty::Num, self.num_lit(), self.num_lit()),
+            1 => (Ty::Str, self.str_lit(), self.str_lit()),
+            2 => (Ty::arr(Ty::Num), Expr::Arr(vec![self.num_lit(), self.num_lit()]), Expr::Arr(vec![self.num_lit()])),
+            _ => (
+                Ty::arr(Ty::arr(Ty::Num)),
+                Expr::Arr(vec![Expr::Arr(vec![self.num_lit()]), Expr::Arr(vec![self.num_lit(), self.num_lit()])]),
+                Expr::Arr(vec![Expr::Arr(vec![self.num_lit()])]),
+            ),
+        };
+        out.push(Stmt::Make { name: x.clone(), init: Some(outer_init), decl: u32::MAX });
+        self.declare(VarInfo { name: x.clone(), ty: ty.clone(), frozen: false, fixed: matches!(ty, Ty::Arr(_)), lens: if kind == 3 { vec![1, 1] } else if kind == 2 { vec![1] } else { vec![] } });
+        let inner = self.fresh_name("w");
+        let mid = self.fresh_name("w");
+        let outerf = self.fresh_name("w");
+        let idx0 = |e: Expr| Expr::Index(Box::new(e), Box::new(num(0)));
+        let mut body: Vec<Stmt> = Vec::new();
+        for _ in 0..self.rng.range(2, 4) {
+            let st = match kind {
+                0 => match self.rng.weighted(&[3, 2, 2]) {
+                    0 => Stmt::Assign { name: x.clone(), value: bin(BinOp::Add, var(&x), num(1)), decl: u32::MAX },
+                    1 => shout(var(&x)),
+                    _ => shout(Expr::Str(StrLit::Template { segs: vec![Seg::Text("x=".into()), Seg::Var { name: x.clone(), pad_l: 0, pad_r: 0, decl: u32::MAX }], quote: '"' })),
+                },
+                1 => match self.rng.weighted(&[3, 2, 2]) {
+                    0 => Stmt::Assign { name: x.clone(), value: bin(BinOp::Add, var(&x), plain("+")), decl: u32::MAX },
+                    1 => shout(method(var(&x), "len", vec![])),
+                    _ => shout(Expr::Str(StrLit::Template { segs: vec![Seg::Var { name: x.clone(), pad_l: 1, pad_r: 0, decl: u32::MAX }, Seg::Text("!".into())], quote: '"' })),
+                },
+                2 => match self.rng.weighted(&[3, 3, 1, 2, 1]) {
+                    0 => Stmt::Expr(method(var(&x), "push", vec![self.num_lit()])),
+                    1 => Stmt::AssignIndex { target: idx0(var(&x)), value: self.num_lit() },
+                    2 => Stmt::Expr(method(var(&x), "reverse", vec![])),
+                    3 => shout(var(&x)),
+                    _ => Stmt::Assign { name: x.clone(), value: Expr::Arr(vec![self.num_lit(), self.num_lit(), self.num_lit()]), decl: u32::MAX },
+                },
+                _ => match self.rng.weighted(&[4, 3, 2, 2, 2]) {
+                    0 => Stmt::Expr(method(idx0(var(&x)), "push", vec![self.num_lit()])),
+                    1 => Stmt::AssignIndex { target: idx0(idx0(var(&x))), value: self.num_lit() },
+                    2 => Stmt::Expr(method(idx0(var(&x)), "reverse", vec![])),
+                    3 => Stmt::Expr(method(var(&x), "push", vec![Expr::Arr(vec![self.num_lit()])])),
+                    _ => shout(idx0(var(&x))),
+                },
+            };
+            body.push(st);
+        }
+        body.push(Stmt::Return(Some(num(0))));
+        let def_inner = Stmt::FuncDef(Box::new(FuncDef { name: inner.clone(), params: vec![], param_decls: vec![], body: Block { stmts: body }, id: u32::MAX }));
+        let via_mid = self.rng.chance(1, 3);
+        let def_mid = Stmt::FuncDef(Box::new(FuncDef {
+            name: mid.clone(),
+            params: vec![],
+            param_decls: vec![],
+            body: Block { stmts: vec![Stmt::Return(Some(call(&inner, vec![])))] },
+            id: u32::MAX,
+        }));
+        let callee = if via_mid { mid.clone() } else { inner.clone() };
+        // the caller and its own variable of the same name
+        let how = self.rng.weighted(&[3, 2, 2]); // local, parameter, loop-body local
+        let mut cbody: Vec<Stmt> = Vec::new();
+        let call_and_show = vec![Stmt::Expr(call(&callee, vec![])), shout(var(&x))];
+        match how {
+            0 => {
+                cbody.push(Stmt::Make { name: x.clone(), init: Some(caller_init.clone()), decl: u32::MAX });
+                cbody.extend(call_and_show);
+            }
+            1 => cbody.extend(call_and_show),
+            _ => {
+                let i = self.fresh_name("i");
+                cbody.push(Stmt::Make { name: i.clone(), init: Some(num(0)), decl: u32::MAX });
+                let mut lb = vec![
+                    Stmt::Assign { name: i.clone(), value: bin(BinOp::Add, var(&i), num(1)), decl: u32::MAX },
+                    Stmt::Make { name: x.clone(), init: Some(caller_init.clone()), decl: u32::MAX },
+                ];
+                lb.extend(call_and_show);
+                cbody.push(Stmt::Loop { cond: bin(BinOp::Lt, var(&i), num(self.rng.range(1, 2))), body: Block { stmts: lb } });
+            }
+        }
+        cbody.push(Stmt::Return(Some(num(0))));
+        let params = if how == 1 { vec![x.clone()] } else { vec![] };
+        let def_outer = Stmt::FuncDef(Box::new(FuncDef { name: outerf.clone(), params, param_decls: vec![], body: Block { stmts: cbody }, id: u32::MAX }));
+        let mut defs = vec![def_inner];
+        if via_mid {
+            defs.push(def_mid);
+        }
+        defs.push(def_outer);
+        if self.rng.chance(1, 2) {
+            defs.reverse();
+        }
+        let defs_first = self.rng.chance(2, 3);
+        if defs_first {
+            out.append(&mut defs);
+        }
+        let args = if how == 1 { vec![caller_init] } else { vec![] };
+        out.push(Stmt::Expr(call(&outerf, args)));
+        out.push(shout(var(&x)));
+        if !defs_first {
+            out.append(&mut defs);
+        }
+    }
+
+    /// The same probe for function names: `k` calls the function `h` of its defining block several
+    /// times (statement, operand, argument, loop body) while its caller `g` defines a function `h`
+    /// of its own; every call in `k` must reach the outer `h`, every call in `g` the inner one.
+    fn fn_scope_probe_idiom(&mut self, out: &mut Vec<Stmt>) {
+        self.budget -= 8;
+        let (h, k, g) = (self.fresh_name("w"), self.fresh_name("w"), self.fresh_name("w"));
+        let p = self.fresh_name("p");
+        let mk = |name: &str, params: Vec<String>, body: Vec<Stmt>| Stmt::FuncDef(Box::new(FuncDef { name: name.to_string(), params, param_decls: vec![], body: Block { stmts: body }, id: u32::MAX }));
+        let tag_outer = self.str_lit();
+        let tag_inner = self.str_lit();
+        let def_h_outer = mk(&h, vec![p.clone()], vec![Stmt::Return(Some(bin(BinOp::Add, tag_outer, var(&p))))]);
+        let def_h_inner = mk(&h, vec![p.clone()], vec![Stmt::Return(Some(bin(BinOp::Add, tag_inner, var(&p))))]);
+        // k: several call sites of h
+        let mut kb: Vec<Stmt> = Vec::new();
+        let acc = self.fresh_name("s");
+        kb.push(Stmt::Make { name: acc.clone(), init: Some(plain("")), decl: u32::MAX });
+        for n in 0..self.rng.range(2, 4) {
+            let c = call(&h, vec![plain(&format!("{n}"))]);
+            match self.rng.weighted(&[3, 2, 2, 2]) {
+                0 => kb.push(Stmt::Assign { name: acc.clone(), value: bin(BinOp::Add, var(&acc), c), decl: u32::MAX }),
+                1 => kb.push(shout(c)),
+                2 => kb.push(Stmt::Assign { name: acc.clone(), value: bin(BinOp::Add, var(&acc), call(&h, vec![c])), decl: u32::MAX }),
+                _ => {
+                    let i = self.fresh_name("i");
+                    kb.push(Stmt::Make { name: i.clone(), init: Some(num(0)), decl: u32::MAX });
+                    kb.push(Stmt::Loop {
+                        cond: bin(BinOp::Lt, var(&i), num(2)),
+                        body: Block { stmts: vec![Stmt::Assign { name: i.clone(), value: bin(BinOp::Add, var(&i), num(1)), decl: u32::MAX }, Stmt::Assign { name: acc.clone(), value: bin(BinOp::Add, var(&acc), c), decl: u32::MAX }] },
+                    });
+                }
+            }
+        }
+        kb.push(Stmt::Return(Some(var(&acc))));
+        let def_k = mk(&k, vec![], kb);
+        // g: its own h, before or after the calls (a definition is visible throughout its block)
+        let mut gb: Vec<Stmt> = vec![shout(call(&k, vec![])), shout(call(&h, vec![plain("g")])), shout(call(&k, vec![]))];
+        let at = self.rng.usize(gb.len() + 1);
+        if self.rng.chance(1, 4) {
+            // the inner h sits in a nested block together with the calls
+            gb.insert(at, def_h_inner);
+            gb = vec![Stmt::Block(Block { stmts: gb })];
+        } else {
+            gb.insert(at, def_h_inner);
+        }
+        gb.push(Stmt::Return(Some(num(0))));
+        let def_g = mk(&g, vec![], gb);
+        let mut defs = vec![def_h_outer, def_k, def_g];
+        if self.rng.chance(1, 2) {
+            defs.reverse();
+        }
+        let defs_first = self.rng.chance(2, 3);
+        if defs_first {
+            out.append(&mut defs);
+        }
+        out.push(Stmt::Expr(call(&g, vec![])));
+        out.push(shout(call(&h, vec![plain("top")])));
+        out.push(shout(call(&k, vec![])));
         if !defs_first {
             out.append(&mut defs);
         }
@@ -1309,6 +1596,18 @@ impl Gen<'_> {
         }
         if !deep && self.budget > 8 && self.rng.chance(1, if matches!(p, Profile::Array | Profile::Mem) { 20 } else { 70 }) {
             self.matrix_idiom(out);
+            return false;
+        }
+        if !deep && self.budget > 8 && self.rng.chance(1, if p == Profile::Mem { 12 } else { 50 }) {
+            self.eval_order_idiom(out);
+            return false;
+        }
+        if !deep && self.budget > 10 && self.rng.chance(1, if matches!(p, Profile::Scope | Profile::Array) { 18 } else { 70 }) {
+            self.scope_probe_idiom(out);
+            return false;
+        }
+        if !deep && self.budget > 10 && self.rng.chance(1, if p == Profile::Scope { 18 } else { 90 }) {
+            self.fn_scope_probe_idiom(out);
             return false;
         }
         if p == Profile::Dead && self.rng.chance(1, 14) {
